@@ -76,6 +76,7 @@ func (s *netSim) chatterMessages() (kinds []string, raws [][]byte) {
 			return len(nodes) >= 6
 		})
 	}
+	add(network.CMDMPTData, &payload.MPTData{Nodes: nodes[:2]})
 	add(network.CMDMPTData, &payload.MPTData{Nodes: nodes})
 	add(network.CMDMempool, payload.NewNullPayload())
 	if len(hdrs) > 0 && len(hashes) >= 2 {
@@ -90,10 +91,14 @@ func (s *netSim) chatterMessages() (kinds []string, raws [][]byte) {
 // inflateCount rewrites one byte of an uncompressed message's payload (preferably the first ones, where element
 // counts live) into a maximal 5- or 9-byte varint and fixes the frame length up.
 func (s *netSim) inflateCount(raw []byte) ([]byte, bool) {
-	if len(raw) < 4 || raw[0] != 0 || raw[2] >= 0xfd || int(raw[2]) != len(raw)-3 {
+	if len(raw) < 4 || raw[0] != 0 {
 		return nil, false
 	}
-	body := raw[3:]
+	br := nio.NewBinReaderFromBuf(raw[2:])
+	body := br.ReadVarBytes()
+	if br.Err != nil || br.Len() != 0 || len(body) == 0 {
+		return nil, false
+	}
 	t := s.r.tape
 	pos := t.Choose(3)
 	if t.Chance(1, 4) {
